@@ -185,6 +185,61 @@ namespace {
       c.close(det(C), d, 256 * u * cond * bound, "C02.st2tost2.det", "det(C)");
   }
 
+  /*!
+   * det / invert on matrices that force row exchanges in the LU decomposition:
+   * tiny or zero leading entries, row-permuted triangular matrices, small
+   * integers, dense.
+   */
+  template <unsigned short N, typename T>
+  void pivoting(verif::Case& c) {
+    using S = stensor<N, T>;
+    using C4 = st2tost2<N, T>;
+    const int n = f4::dimOf(N, SYM);
+    const bool flt = std::is_same_v<T, float>;
+    const double sc = gen::scale(c, flt ? 4 : 20);
+    ref::Vec g = pivotMatrix(c, n);
+    auto at = [&](int I, int J) -> R& { return g[static_cast<std::size_t>(I * n + J)]; };
+    C4 C;
+    for (int I = 0; I < n; ++I)
+      for (int J = 0; J < n; ++J) C(I, J) = static_cast<T>(R(sc) * at(I, J));
+    ref::Vec m(static_cast<std::size_t>(n * n)), im;
+    for (int I = 0; I < n; ++I)
+      for (int J = 0; J < n; ++J) m[static_cast<std::size_t>(I * n + J)] = C(I, J);
+    const bool exch = N >= 2 && luExchangesRows(n, m, U<T>());
+    c.tag(exch ? "pivot.row_exchange" : "pivot.no_row_exchange");
+    c.nontrivial(exch);
+    const R u = U<T>();
+    const bool invertible = ref::inverseN(n, m, im);
+    const R cond = invertible ? ref::matNormInf(n, m) * ref::matNormInf(n, im) : R(0);
+    // invert (TinyMatrixInvert): only well conditioned matrices
+    if (invertible && cond < (flt ? 1e3L : 1e6L)) {
+      const auto iC = invert(C);
+      // threshold pivoting (multipliers up to 10): allow for the growth of the elements
+      const R tol = 4096 * u * cond * ref::matNormInf(n, im);
+      for (int I = 0; I < n; ++I)
+        for (int J = 0; J < n; ++J)
+          c.close(iC(I, J), im[static_cast<std::size_t>(I * n + J)], tol,
+                  "C02.st2tost2.invert.pivoting", "invert component");
+      const S s = gen::toStensor<S>(gen::sym(c, N, 1.));
+      const M3 Sm = gen::stensorToM3(s);
+      cmpS(c, S(C * S(iC * s)), Sm, 4096 * u * cond * std::max<R>(ref::norm(Sm), 1) + tinyOf<T>(),
+           "C02.st2tost2.invert.pivoting", "C:(C^-1:s) = s");
+    }
+    // det: any matrix (singular ones included: the documented result is the determinant)
+    const R d = ref::detN(n, m);
+    R bound = 1;  // Hadamard bound: product of the row norms
+    for (int I = 0; I < n; ++I) {
+      R rn = 0;
+      for (int J = 0; J < n; ++J) rn += m[static_cast<std::size_t>(I * n + J)] * m[static_cast<std::size_t>(I * n + J)];
+      bound *= std::sqrt(rn);
+    }
+    if (!(bound < static_cast<R>(std::numeric_limits<T>::max()) * 1e-3L &&
+          bound > static_cast<R>(std::numeric_limits<T>::min()) * 1e6L))
+      return;
+    c.close(det(C), d, 4096 * u * bound,
+            exch ? "C02.st2tost2.det.row_exchange" : "C02.st2tost2.det", "det(C)");
+  }
+
   template <unsigned short N, typename T>
   void basis(verif::Case& c) {
     using S = stensor<N, T>;
@@ -220,7 +275,17 @@ namespace {
     using TT = tensor<N, T>;
     using C4 = st2tost2<N, T>;
     const double sc = gen::scale(c, std::is_same_v<T, float> ? 6 : 20);
-    const C4 C = f4::fromT4<C4>(f4::gen(c, N, SYM, SYM, sc), N, SYM, SYM);
+    // fully anisotropic moduli (all components non-zero) in 3 cases out of 4: every
+    // entry of the operand must matter (structured moduli hide storage errors)
+    C4 C = f4::fromT4<C4>(f4::gen(c, N, SYM, SYM, sc), N, SYM, SYM);
+    if (c.chance(1, 2, "force_dense")) {
+      c.tag("pushforward.forced_dense");
+      for (int I = 0; I < f4::dimOf(N, SYM); ++I)
+        for (int J = 0; J < f4::dimOf(N, SYM); ++J) {
+          const double v = c.real(0.1, 1., "dense") * (c.boolean("sgn") ? 1 : -1);
+          C(I, J) = static_cast<T>(sc * v);
+        }
+    }
     const T4 Cr = f4::toT4(C, N, SYM, SYM);
     const bool isF = c.chance(2, 3, "use_genF");
     const TT F = gen::toTensor<TT>(isF ? gen::F(c, N, 0.2, 5.) : gen::dense(c, N, 1.));
@@ -239,6 +304,12 @@ namespace {
     f4::cmp(c, C4(pull_back(C, F)), ref::pushForward(Cr, iF), N, SYM, SYM,
             1024 * u * k2 * nC * nI * nI * nI * nI + tiny, "C02.st2tost2.pull_back",
             "pull_back(C,F)");
+    // two-step round trip: the intermediate tensor couples every component
+    const R k4 = k2 * k2 * k2 * k2;
+    f4::cmp(c, C4(pull_back(C4(push_forward(C, F)), F)), Cr, N, SYM, SYM, 4096 * u * k4 * nC + tiny,
+            "C02.st2tost2.push_pull_roundtrip", "pull_back(push_forward(C,F),F) = C");
+    f4::cmp(c, C4(push_forward(C4(pull_back(C, F)), F)), Cr, N, SYM, SYM, 4096 * u * k4 * nC + tiny,
+            "C02.st2tost2.push_pull_roundtrip", "push_forward(pull_back(C,F),F) = C");
   }
 
 }  // namespace
@@ -252,6 +323,7 @@ namespace {
 C02_INST(projectors, projectors)
 C02_INST(products, products)
 C02_INST(inversion, inversion)
+C02_INST(pivoting, pivoting)
 C02_INST(basis, basis)
 C02_INST(pushforward, pushforward)
 
